@@ -215,6 +215,32 @@ func rewriteTree(rt *rapid.T, root *ttlvref.Node, notes *[]string) {
 			structs = append(structs, n)
 		}
 	})
+	// zero-length strings: one input in four has one or two of its byte / text strings emptied (an empty value is a value;
+	// whether it survives a hop must not depend on the encoding the hop goes through)
+	var strs []*ttlvref.Node
+	root.Walk(func(n *ttlvref.Node, _ int) {
+		if n.Type == ttlvref.ByteString || n.Type == ttlvref.TextString {
+			strs = append(strs, n)
+			if n.Type == ttlvref.ByteString {
+				strs = append(strs, n, n)
+			}
+		}
+	})
+	switch es := rapid.IntRange(0, 5).Draw(rt, "emptystrings"); {
+	case len(strs) > 0 && es == 0:
+		for i := rapid.IntRange(1, 2).Draw(rt, "nempty"); i > 0; i-- {
+			strs[rapid.IntRange(0, len(strs)-1).Draw(rt, "whichstr")].B = []byte{}
+		}
+		*notes = append(*notes, "emptied-string")
+	case len(strs) > 0 && es == 1:
+		// every byte string at once (few message fields hold byte strings; fewer still are optional)
+		for _, n := range strs {
+			if n.Type == ttlvref.ByteString {
+				n.B = []byte{}
+			}
+		}
+		*notes = append(*notes, "emptied-all-byte-strings")
+	}
 	k := rapid.IntRange(0, 2).Draw(rt, "nrewrites")
 	for i := 0; i < k && len(structs) > 0; i++ {
 		s := structs[rapid.IntRange(0, len(structs)-1).Draw(rt, "which")]
